@@ -20,7 +20,7 @@ CLAIMS = {
 CLAIMS["C06"] = {
     "technique": "rapid state machine over packetio.Buffer compared with a FIFO-of-byte-slices model; free-running concurrent writers/readers with tagged packets",
     "engine": "rapid-models",
-    "text": "Generated-input search: histories of Write/Read/SetLimit*/Close with lengths aimed at the ring end, the growth sizes and the 65535/65536 boundary are applied to the real Buffer and to a FIFO model; every Read is compared byte for byte, the writer's slice is scribbled over after every Write, and the final drain compares everything left. A second test runs real goroutines (1..3 writers, 1..2 readers) with tagged packets and checks exactly-once and per-writer order. Exploration only; the controlled-schedule concurrency lives in C08.",
+    "text": "Generated-input search: histories of Write/Read/SetLimit*/Close with lengths aimed at the ring end, the growth sizes and the 65535/65536 boundary are applied to the real Buffer and to a FIFO model; every Read is compared byte for byte, the writer's slice is scribbled over after every Write, and the final drain compares everything left. A second test runs real goroutines (1..3 writers, 1..2 readers) with tagged packets and checks exactly-once, intact contents and per-writer order; a quarter of these cases push 4200..20000-byte packets through a size limit that admits two of them (writers retry on ErrFull), so the ring is overwritten while readers copy. Exploration only; the controlled-schedule concurrency lives in C08.",
     "note": "Trusted: the FIFO model. A read-only shim (shims/packetio) exposes head/tail/capacity for case classification only; the oracle does not use it.",
     "design_ref": "DESIGN.md §3 C06",
 }
@@ -34,7 +34,7 @@ CLAIMS["C07"] = {
 CLAIMS["C20"] = {
     "technique": "exhaustive enumeration of lengths x offsets x aliasing against a byte-wise reference, plus rapid cases up to 5000 bytes; xor_old.go compiled with its build constraint stripped",
     "engine": "rapid-models",
-    "text": "Enumerated and generated inputs: all (len a, len b) up to 24 (quick) / 40 (thorough), all start offsets 0..7 of the three slices, aliasing none/dst==a/dst==b and three destination lengths, for the toolchain-selected XorBytes and for XorBytes, fastXORBytes and safeXORBytes of xor_old.go (compiled from the working tree with the build line removed); result, return value and every guard byte of the three backing arrays are compared with a byte-wise reference. rapid adds lengths up to 5000 and structured contents (all zero, all 0xFF, runs of zero bytes, small alphabets besides pseudo-random bytes); a native fuzz target exists for the thorough tier. Exhaustive within the stated bounds, exploration beyond.",
+    "text": "Enumerated and generated inputs: all (len a, len b) up to 24 (quick) / 40 (thorough), all start offsets 0..7 of the three slices, aliasing none/dst==a/dst==b and three destination lengths, for the toolchain-selected XorBytes and for XorBytes, fastXORBytes and safeXORBytes of xor_old.go (compiled from the working tree with the build line removed); result, return value and every guard byte of the three backing arrays are compared with a byte-wise reference. rapid adds lengths up to 5000 and k*65536 +- 1, all three slices cut from one allocation in a drawn order (disjoint, or the destination identical to one source; two-index slices whose capacity runs on into their neighbours, every other byte of the allocation compared), and structured contents (all zero, all 0xFF, runs of zero bytes, small alphabets besides pseudo-random bytes); a native fuzz target exists for the thorough tier. Exhaustive within the stated bounds, exploration beyond.",
     "note": "xor_arm.go/xor_arm.s cannot be built or run on amd64 and are not covered. Trusted: the byte-wise reference loop.",
     "design_ref": "DESIGN.md §3 C20",
 }
@@ -49,7 +49,7 @@ CLAIMS["C08"] = {
 CLAIMS["C09"] = {
     "technique": "rapid-generated Set/advance/callback histories on a virtual clock with fake timers (dispatched-but-not-run callbacks), invariant after every step",
     "engine": "vclock",
-    "text": "time.Until/time.AfterFunc of the working-tree deadline package are redirected (source-to-source, via -overlay) to a virtual clock whose fake timers follow the Stop/Reset contract; a due timer becomes 'dispatched' and its callback is run by the harness later, in any order, with several outstanding. After every step of up to 40-step histories: signalled only if the latest Set time is non-zero and passed; exact agreement when no callback is outstanding; fresh Done channel after expiry; Deadline() == latest Set. A controlled-schedule variant runs 1..3 setter tasks against clock and callback tasks at the granularity of every lock operation of deadline.go and checks the settle-state invariant. Exploration only.",
+    "text": "time.Until/time.AfterFunc of the working-tree deadline package are redirected (source-to-source, via -overlay) to a virtual clock whose fake timers follow the Stop/Reset contract; a due timer becomes 'dispatched' and its callback is run by the harness later, in any order, with several outstanding. After every step of up to 40-step histories: signalled only if the latest Set time is non-zero and passed; exact agreement when no callback is outstanding; fresh Done channel after expiry; Deadline() == latest Set. Times include the far future (year 9999, Unix(2^40), now + the largest Duration), deadlines that creep (L + 1..999 us) and sub-millisecond clock advances. A controlled-schedule variant runs 1..3 setter tasks against clock and callback tasks at the granularity of every lock operation of deadline.go and checks the settle-state invariant. Exploration only.",
     "note": "Trusted: the fake timer's fidelity to time.AfterFunc semantics (Stop/Reset return false once the callback goroutine has been started). Real-timer behaviour is exercised by C10.",
     "design_ref": "DESIGN.md §2.4, §3 C09",
 }
@@ -57,7 +57,7 @@ CLAIMS["C09"] = {
 CLAIMS["C18"] = {
     "technique": "rapid state machines: Bridge vs a model of the scripted impairments (hand-offs counted exactly), dpipe vs FIFO-per-direction model",
     "engine": "rapid-models",
-    "text": "Generated-input search: histories of writes in both directions interleaved with DropNextNWrites, ReorderNextNWrites (repeatedly, n=1..4), Drop, Reorder, Filter, Tick and Process, with truncating and non-truncating readers; the model applies the script to two queues and every hand-over is attributed by queue-length deltas, so the comparison 'reader received exactly the model's sequence' does not depend on timing; combinations the documentation leaves unspecified fall back to the weak oracle (no duplicate, nothing invented, intact). dpipe: FIFO per direction, one message per read, truncation, close of one end; a second machine fills a direction to its capacity of 1000 messages, parks further writers inside Write and closes either end: every write that reported success is read by the peer exactly once. Exploration only.",
+    "text": "Generated-input search: histories of writes in both directions interleaved with DropNextNWrites, ReorderNextNWrites (repeatedly, n=1..4), Drop, Reorder, Filter, Tick and Process, with truncating and non-truncating readers; the model applies the script to two queues and every hand-over is attributed by queue-length deltas, so the comparison 'reader received exactly the model's sequence' does not depend on timing; combinations the documentation leaves unspecified fall back to the weak oracle (no duplicate, nothing invented, intact). dpipe: FIFO per direction, one message per read, truncation, close of one end; a second machine fills a direction to its capacity of 1000 messages, parks further writers inside Write and closes either end: every write that reported success is read by the peer exactly once. Two free-running units run Bridge writers, readers and Tick/Process concurrently (exactly-once, per-direction order where no reordering is scripted) and Tick against ReorderNextNWrites. Exploration only.",
     "note": "Trusted: the model's order of script application (drop counter, reorder batch, filter) for the unambiguous cases; Bridge.SetLossChance and write deadlines are not exercised.",
     "design_ref": "DESIGN.md §3 C18",
 }
@@ -111,7 +111,7 @@ CLAIMS["C13"] = {
 CLAIMS["C17"] = {
     "technique": "rapid-drawn programs and schedules over the yield-instrumented context wrappers (operation, canceller and watcher goroutines as scheduler tasks), quiescence oracle with a deadline-recording decorator",
     "engine": "sched",
-    "text": "The harness owns the schedule of netctx.Conn, netctx.PacketConn and connctx over net.Pipe: every lock/channel/select/WaitGroup operation and go statement of the three wrapper files yields to the controller, so 'the context fires while data is being handed over' and 'the watcher sees ctx.Done after the read returned' are drawn choices. At quiescence: every operation whose context is done has returned; 0 bytes => exactly the context's error; bytes received == bytes reported written (+ a prefix of a write in flight); a decorator around the wrapped conn shows no deadline left after any returned operation. A second, free-running variant runs drawn programs on real goroutines and the real clock (stream wrappers over net.Pipe, netctx.PacketConn over a loopback UDP pair) with contexts that time out or are cancelled 0..2 ms into the operation, followed by probe reads with fresh contexts until everything reported written has arrived: same per-operation rules, byte/message conservation in order, nothing beyond. Exploration of drawn schedules and timings.",
+    "text": "The harness owns the schedule of netctx.Conn, netctx.PacketConn and connctx over net.Pipe: every lock/channel/select/WaitGroup operation, every call on the wrapped connection and every go statement of the three wrapper files yields to the controller, so 'the context fires while data is being handed over' and 'the watcher sees ctx.Done after the read returned' are drawn choices. At quiescence: every operation whose context is done has returned; 0 bytes => exactly the context's error; bytes received == bytes reported written (+ a prefix of a write in flight); a decorator around the wrapped conn shows no deadline left after any returned operation. A second, free-running variant runs drawn programs on real goroutines and the real clock (stream wrappers over net.Pipe, netctx.PacketConn over a loopback UDP pair) with contexts that time out or are cancelled 0..2 ms into the operation, followed by probe reads with fresh contexts until everything reported written has arrived: same per-operation rules, byte/message conservation in order, nothing beyond. Exploration of drawn schedules and timings.",
     "note": "Trusted: net.Pipe as the wrapped connection (atomic for the scheduler), goroutine wait states from runtime.Stack. Wrapped connections that ignore deadlines are outside the statement.",
     "design_ref": "DESIGN.md §3 C17",
 }
@@ -126,7 +126,7 @@ CLAIMS["C11"] = {
 CLAIMS["C12"] = {
     "technique": "rapid-drawn schedules over yield-instrumented udp/conn.go with real sockets (controlled scheduler + terminal quiescence rule), then real-I/O liveness probes",
     "engine": "sched",
-    "text": "Setup creates 0..3 accepted and 0..2 un-accepted connections with real datagrams; the controlled phase runs listener.Close, conn.Close (also twice), Accept, Read and late datagrams (also with the read loop parked inside a gated AcceptFilter while Close runs) as tasks in a rapid-drawn schedule over every lock/atomic/channel/WaitGroup operation of udp/conn.go and packetio/buffer.go; the listener's own goroutines run free and the run ends only when two whole-process snapshots show every goroutine parked. Oracle: no Close blocks, Accept fails after Close or its connection counts as accepted, reads of closed connections return; then with real I/O: everything closed => port can be bound again and no goroutine of the package remains; otherwise every accepted unclosed connection still sends and receives ('never earlier') and an open listener still accepts. Exploration of drawn schedules.",
+    "text": "Setup creates 0..3 accepted and 0..2 un-accepted connections with real datagrams; the controlled phase runs listener.Close, conn.Close (also twice, also while its remote sends again and Accept takes the successor), Accept, Read, Write queued behind the batch writer, a full accept backlog and late datagrams (also with the read loop parked inside a gated AcceptFilter while Close runs) as tasks in a rapid-drawn schedule over every lock/atomic/channel/WaitGroup operation of udp/conn.go and packetio/buffer.go; the listener's own goroutines run free and the run ends only when two whole-process snapshots show every goroutine parked. Oracle: no Close blocks, Accept fails after Close or its connection counts as accepted, reads of closed connections return; then with real I/O: everything closed => the port can be bound again at once (a failed bind counts only if /proc shows a socket of this process still holding the port) and no goroutine of the package remains; otherwise every accepted unclosed connection still sends and receives ('never earlier') and an open listener still accepts. Exploration of drawn schedules.",
     "note": "Trusted: goroutine wait states from runtime.Stack; netpoller wake-ups are not controlled; liveness waits of 3 s. The batch flush ticker goroutine is expected to exit within that margin.",
     "design_ref": "DESIGN.md §2.3, §3 C12",
 }
@@ -134,7 +134,7 @@ CLAIMS["C12"] = {
 CLAIMS["C10"] = {
     "technique": "rapid-generated deadline/idle/inject/read histories run in parallel on five connection types on the real clock (both GODEBUG timer semantics), timestamp oracle",
     "engine": "rapid-models",
-    "text": "Generated-input search: each history of SetReadDeadline(zero|past|+8..30 ms|+10 s), idle periods, data arrivals and reads (at most one outstanding, optionally left parked while later steps run) is executed on packetio.Buffer, a dpipe end, a udp listener connection over a real socket, a vnet UDPConn behind a router and a Bridge endpoint, under GODEBUG=asynctimerchan=1 and =0. From monotonic timestamps and the list of deadlines in force during each call: a timeout is legal only if a non-zero deadline in force had passed at return; data is illegal once a read has timed out under the same unchanged deadline; an outstanding read is released within 2 s of its deadline, or by data when none is pending. A virtual-clock variant runs packetio.Buffer, dpipe and a Bridge endpoint with deadline/deadline.go yield-instrumented and its timers on a virtual clock under rapid-drawn schedules (reader, deadliner, injector, clock and timer-callback tasks), so a deadline changed while an expired timer's callback has not run yet is a drawn choice; afterwards a fresh deadline is made to pass: parked reads are released, reads keep timing out with data waiting, and a zero deadline returns the data. Exploration only.",
+    "text": "Generated-input search: each history of SetReadDeadline(zero|past|+8..30 ms|+10 s), far-future deadlines, re-applying the value in force, keep-alive loops (now+12 ms every 300 us for 12..24 ms with a read started on the way), idle periods, data arrivals and reads (at most one outstanding, optionally left parked while later steps run) is executed on packetio.Buffer, a dpipe end, a udp listener connection over a real socket, a vnet UDPConn behind a router and a Bridge endpoint, under GODEBUG=asynctimerchan=1 and =0. From monotonic timestamps and the list of deadlines in force during each call: a timeout is legal only if a non-zero deadline in force had passed at return; data is illegal once a read has timed out under the same unchanged deadline; an outstanding read is released within 2 s of its deadline, or by data when none is pending. A virtual-clock variant runs packetio.Buffer, dpipe and a Bridge endpoint with deadline/deadline.go yield-instrumented and its timers on a virtual clock under rapid-drawn schedules (reader, deadliner, injector, clock and timer-callback tasks), so a deadline changed while an expired timer's callback has not run yet is a drawn choice; afterwards a fresh deadline is made to pass: parked reads are released, reads keep timing out with data waiting, and a zero deadline returns the data. Exploration only.",
     "note": "The runtime never fires timers early, so 'no early timeout' cannot be falsified by load; 'timeouts persist' is asserted logically (after a timeout has been observed under the same deadline) or with a 300 ms margin; liveness margins of 2-3 s. Sub-microsecond earliness could be missed.",
     "design_ref": "DESIGN.md §3 C10",
 }
@@ -150,8 +150,8 @@ CLAIMS["C19"] = {
 CLAIMS["C01"] = {
     "technique": "rapid-generated topologies and traffic plans through the public API, per-router capture filters, hop-by-hop model walk (NAPT addresses learned and constrained), exact quiescence, then concurrent replay of established flows",
     "engine": "rapid-models",
-    "text": "Generated-input search: root router, up to 4 child routers nested to depth 3 with every NAPT mapping x filtering combination, static or automatic external addresses, or 1:1 NAT; hosts with automatic, single and double static addresses; specific, wildcard and loopback sockets. Every router carries a pass-through capture filter. 5..40 sequential sends (other sockets, replies to observed translated sources, unbound ports, unroutable and loopback addresses, NAT external addresses; payloads 0..1500 incl. really empty; buffer overwritten after the write); after each the network is quiescent (all router loops parked, all queues empty) and the model of Appendix A decides: delivered iff admitted, exactly once, byte-identical, only to the socket bound to the destination, showing the translated source; then the established flows are replayed concurrently in bursts: per-flow order, no duplicates, no foreign socket, completeness. A port-pressure variant uses up the NAPT's dynamic port range (16370..16400 filler mappings, lifetime 1 s) and lets an expired owner and the heir of its port keep exchanging requests and replies. A controlled-schedule variant re-starts the routers inside a scheduler session (every router loop becomes a task) and lets 2..3 sender tasks write on the established flows under rapid-drawn schedules over every lock/channel/select operation of router.go, net.go, conn.go, conn_map.go, chunk_queue.go and nat.go, with the same oracle at quiescence. Exploration only.",
-    "note": "Trusted: the model (harness/vnete2e/model.go, harness/vnat/model.go); goroutine states from runtime.Stack plus read-only shims for queue lengths decide quiescence. NAT lifetimes are 1 h (expiry is C02/C03).",
+    "text": "Generated-input search: root router, up to 4 child routers nested to depth 3 with every NAPT mapping x filtering combination, static or automatic external addresses, or 1:1 NAT; hosts with automatic, single and double static addresses; specific, wildcard and loopback sockets, on two-address hosts also two sockets sharing one port; a rebind step closes and re-opens sockets. A sixth of the routers delay (MinDelay 200 us / 1 ms). Every router carries a pass-through capture filter. 5..40 sequential sends (other sockets, replies to observed translated sources, unbound ports, unroutable and loopback addresses, NAT external addresses; payloads 0..1500 incl. really empty; buffer overwritten after the write); after each the network is quiescent (all router loops parked, all queues empty) and the model of Appendix A decides: delivered iff admitted, exactly once, byte-identical, only to the socket bound to the destination, showing the translated source; then the established flows are replayed concurrently in bursts: per-flow order, no duplicates, no foreign socket, completeness. A bounded-queue variant keeps fewer than QueueSize-2 datagrams inside a delaying router and expects none to be dropped. A port-pressure variant uses up the NAPT's dynamic port range (16370..16400 filler mappings, lifetime 1 s) and lets an expired owner and the heir of its port keep exchanging requests and replies. A controlled-schedule variant re-starts the routers inside a scheduler session (every router loop becomes a task) and lets 2..3 sender tasks write on the established flows under rapid-drawn schedules over every lock/channel/select operation of router.go, net.go, conn.go, conn_map.go, chunk_queue.go and nat.go, with the same oracle at quiescence. Exploration only.",
+    "note": "Trusted: the model (harness/vnete2e/model.go, harness/vnat/model.go); goroutine states from runtime.Stack plus read-only shims for queue lengths (by reflection; an activity counter moved by the capture filters when they are unreadable, and always as a cross-check) decide quiescence. NAT lifetimes are 1 h (expiry is C02/C03).",
     "design_ref": "DESIGN.md §3 C01, Appendix A",
 }
 
